@@ -387,3 +387,8 @@ pub fn replay(case: &Value) -> Result<String, String> {
 pub fn crash_sig(_case: &Value, kind: &str) -> String {
     kind.to_string()
 }
+
+pub const RULE: &str = "enumeration (no duplicates by construction): A) every instruction shape (label x output x command, 27) x every rendering style (quote-when-optional, 1|3 separator spaces, 3 leads, 6 trails incl. comments, 4 '=' spacings) x 15 argument lists; B) every argument string up to the length bound over the 15-character alphabet {a n SP \" \\ # = : $ { % TAB LF CR e-acute}, as 1, 2 and 3 arguments, x 3 shapes x 16 styles; C) every script of up to n lines from a pool of 12 lines x LF/CRLF x final line break. Oracle: parse_text(render(i)) == i. A case is non-trivial when a label or output is present or an argument needs quoting or escaping; states = distinct outcome classes (shape, argument count, character classes per argument), transitions = parse_text calls";
+pub const ASSUMPTIONS: &[&str] = &["characters outside the alphabet behave like 'a' or 'e-acute' (the scanner has no other special characters)", "names are restricted to the listed labels/outputs/commands"];
+pub const EXHAUSTIVE: bool = true;
+pub const WALL_CAP_S: (u64, u64) = (50, 1500);
